@@ -150,6 +150,53 @@ class Layout(object):
             row[x0 + i] = (row[x0 + i] & ~(1 << pl) & 0xff) | (bit << pl)
         return True
 
+
+    # -- fast block write (same semantics as poke() byte by byte) ---------------
+
+    def _tables(self):
+        t = getattr(self, '_tab', None)
+        if t is None:
+            loc = [self.locate(o) for o in range(self.page_size)]
+            lut = None
+            if self.kind == 'packed':
+                bpp, n = self.bpp, 8 // self.bpp
+                m = (1 << bpp) - 1
+                lut = [bytes((v >> (bpp * (n - 1 - i))) & m for i in range(n)) for v in range(256)]
+            elif self.kind in ('planar', 'tandy6'):
+                # SPREAD[v]: 8-byte big-endian integer with byte i = bit (7-i) of v
+                lut = [int.from_bytes(bytes((v >> (7 - i)) & 1 for i in range(8)), 'big')
+                       for v in range(256)]
+            t = self._tab = (loc, lut)
+        return t
+
+    def poke_block(self, pages, addr, data, mask=0x0f):
+        """Write data byte-at-a-time semantics starting at absolute address addr;
+        pages: dict page number -> content (pages not in the dict are skipped)."""
+        loc, lut = self._tables()
+        kind = self.kind
+        ps = self.page_size
+        rel = addr - self.base
+        ones = 0x0101010101010101
+        for i, val in enumerate(data):
+            pno, off = divmod(rel + i, ps)
+            page = pages.get(pno)
+            if page is None:
+                continue
+            l = loc[off]
+            if l is None:
+                continue
+            if kind == 'text':
+                (page[1] if l[2] else page[0])[l[0]][l[1]] = val
+            elif kind == 'packed':
+                page[l[0]][l[1]:l[1] + l[2]] = lut[val]
+            else:
+                m = mask if kind == 'planar' else (1 << l[3])
+                row = page[l[0]]
+                x0 = l[1]
+                old = int.from_bytes(row[x0:x0 + 8], 'big')
+                new = (old & ~(ones * m) & 0xffffffffffffffff) | (lut[val] * m)
+                row[x0:x0 + 8] = new.to_bytes(8, 'big')
+
     # -- pages ------------------------------------------------------------------
 
     def new_page(self):
